@@ -169,7 +169,7 @@ def check_invariants_method(prog, e, segs, fn, ty, inv, rep, keybase):
             # in a method with loops the state at a loop head is unknown unless this segment starts at the entry
             init = req if (s.src[0] == 'entry' or not has_loops) else (req if not touches(e, segs, place) else ts.U)
             r = ts.fold_events(e, s.state, s.state.events if not has_loops else s.events, place, init, init_empty=True)
-            if r.state > req:
+            if ts.worse(r.state, req):
                 bad.append('%s is left %s (required: %s): %s' % (fname, ts.NAMES[r.state], ts.NAMES[req], ' -> '.join(r.why)))
             if nonempty:
                 # Option<Box<[T]>>: Some(list) must be non-empty: check the stored value
@@ -183,7 +183,7 @@ def check_invariants_method(prog, e, segs, fn, ty, inv, rep, keybase):
             for ev in (s.state.events if not has_loops else s.events):
                 if ev[0] == 'call' and re.search(r'::binary_search(_by|_by_key)?$', ev[1]) and ev[2] and models.vec_place(e, s.state, ev[2][0]) == place:
                     rr = ts.fold_events(e, s.state, upto, place, init)
-                    if rr.state > ts.S:
+                    if ts.worse(rr.state, ts.S):
                         bad.append('%s is searched with binary_search while %s' % (fname, ts.NAMES[rr.state]))
                 upto.append(ev)
     rep.ob(keybase + ':invariant', 'TS-INVARIANT', fn, b['span'], '%s re-establishes the order/uniqueness invariants of %s' % (validators.short_fn(fn), ty), not bad,
@@ -240,7 +240,7 @@ def check_constructor(prog, fn, ty, allinv, rep, exempt):
                 if terms.access_path(fv) is not None and not ts.is_search(fv):
                     continue      # moved from a parameter of the same field type (invariant assumed on entry)
                 r = ts.of_value(e, s.state, fv, s.state.facts)
-                if r.state > req:
+                if ts.worse(r.state, req):
                     bad.append('%s is built %s (required: %s): %s' % (fname, ts.NAMES[r.state], ts.NAMES[req], ' -> '.join(r.why)))
                 if nonempty and fv[0] == 'adt' and fv[2] == 'Some' and r.maybe_empty:
                     bad.append('%s may be built as Some(empty list)' % fname)
@@ -268,7 +268,12 @@ def passes_through(e, ret, prog, ty):
 
 
 # ------------------------------------------------------------------------------------------------------------------
-def validated_shape(e, st, v, role, roles):
+class _Shapes:
+    def __init__(self, shapes):
+        self.shapes = shapes
+
+
+def validated_shape(e, st, v, role, roles, shapes=None):
     """the inserted value must be the validated argument: ('tiny', subject, transform) whose subject's shape on this path
     lies inside the role's production; -> list of problems"""
     bad = []
@@ -284,7 +289,7 @@ def validated_shape(e, st, v, role, roles):
     if x[0] != 'tiny':
         return ['inserted value is not a validated subtag: %s' % e.short(v, 120)]
     subj, xf = x[1], x[2]
-    S = st.shapes.get(subj)
+    S = (shapes if shapes is not None else st.shapes).get(subj)
     if S is None:
         return ['inserted %s was not validated on this path' % role]
     extra = S.minus(spec.accept)
